@@ -34,6 +34,12 @@ LEVEL_TEXT = (
     "interpolate pairs coefficient row i with basis function i for all i "
     "and all non-None fields. The numerical identity v^T A u = a(u_h, v_h) "
     "on concrete meshes and user integrands are not decided.")
+LEVEL_TEXT += (
+    " Added after the seeding phase: (R5) no function under skfem/assembly "
+    "casts a value on the data path to a fixed real type or compares "
+    "assembled values with an absolute constant (expected count zero; "
+    "positive examples in the self-test); the COO consumers and "
+    "interpolate are decided by symbolic runs.")
 LEVEL_NOTE = (
     "Trusted: scipy coo_matrix sums duplicates and takes (data, (row, "
     "col)); numpy flatten/zeros/sum semantics. Local sizes are symbolic in "
